@@ -168,7 +168,7 @@ def scenarios(ctx):
                                     connack=1, setwin=0), windows=(1, 3)))
         out.append(Std('sub-' + name, profile='sub', init=init[:3] + (('setwin', 0, 2),), connects=[(False, 0, v)],
                        jits=(0.75, 0.0),
-                       budgets=dict(sub=1 if q else 2, unsub=1, ack=1, tick=4 if q else 7, jit=1 if q else 2, lose=1, rebuild=1, connect=1, connack=1),
+                       budgets=dict(sub=1, unsub=1, ack=1, tick=4 if q else 6, jit=1, lose=1, rebuild=1, connect=1, connack=1),
                        reconnects=[(False, 0, v)]))
     for v in (3, 4):
         out.append(Std('pub-v%d-heldback' % v, profile='pub', closing=False,
